@@ -1,9 +1,1352 @@
-//! C19 — placeholder while C03 is brought up.
+//! C19 — MAC-command builders, parsers and identifier text forms round-trip.
+//!
+//! Oracle: an independent description of every command (field -> bits of the wire image, unit
+//! mapping of the accessor) transcribed from LoRaWAN 1.0.4 ch. 5, TS009 and TS005. The real
+//! creators build, the real iterators parse, the description judges.
+
+use lorawan::certification::*;
+use lorawan::default_crypto::{DefaultCrypto, DefaultNetworkCrypto};
+use lorawan::keys::{self, AES128};
+use lorawan::maccommandcreator::build_mac_commands;
+use lorawan::maccommands::*;
+use lorawan::multicast::*;
+use lorawan::parser::{self, McAddr};
 use lrv_core::*;
+use std::str::FromStr;
+
 pub struct C19;
-impl Monitor for C19 {
-    fn prop(&self) -> &'static str { "C19" }
-    fn gens(&self, _t: Tier) -> Vec<Gen> { vec![] }
-    fn run_case(&self, _g: &str, _i: u64, _r: &mut Prng, _c: &mut Collector) {}
-    fn rule(&self) -> String { String::new() }
+
+type Snap = Vec<(&'static str, u128)>;
+const ERR_MARK: u128 = u128::MAX;
+const MON: [&str; 6] = ["maccmd", "maccmd", "cert", "cert", "mcast", "mcast"];
+const SETS: [&str; 6] = ["mac-up", "mac-down", "dut-up", "dut-down", "mc-up", "mc-down"];
+const KEK: [u8; 16] = [0x66, 1, 2, 3, 4, 5, 6, 7, 8, 9, 10, 11, 12, 13, 14, 15];
+
+fn expand16(v: u64) -> [u8; 16] {
+    Prng::new(v ^ 0xC19).arr()
+}
+fn expand12(v: u64) -> [u8; 12] {
+    Prng::new(v ^ 0xC19C).arr()
+}
+fn le128(b: &[u8]) -> u128 {
+    let mut x = [0u8; 16];
+    let n = b.len().min(16);
+    x[..n].copy_from_slice(&b[..n]);
+    u128::from_le_bytes(x)
+}
+fn s8(v: i8) -> u128 {
+    v as i128 as u128
+}
+
+// ---- parse + read every accessor ----------------------------------------------------------
+
+/// Parses `bytes` with the iterator of `set`; exactly one command spanning all of `bytes` is
+/// expected. Keys starting with '~' are derived accessors (functions of the other fields).
+fn snap_one(set: usize, bytes: &[u8]) -> Result<(&'static str, Snap), String> {
+    let seq = snap_seq(set, bytes)?;
+    if seq.len() != 1 {
+        return Err(format!("{} commands parsed instead of 1", seq.len()));
+    }
+    let (name, len, s) = seq.into_iter().next().unwrap();
+    if len != bytes.len() {
+        return Err(format!("command spans {} of {} octets", len, bytes.len()));
+    }
+    Ok((name, s))
+}
+
+/// Parses a whole stream: (variant name, 1 + payload length, snapshot) per command.
+fn snap_seq(set: usize, bytes: &[u8]) -> Result<Vec<(&'static str, usize, Snap)>, String> {
+    let mut out = vec![];
+    macro_rules! run {
+        ($f:ident, $conv:ident) => {{
+            let mut n = 0;
+            for it in $f(bytes) {
+                n += 1;
+                if n > bytes.len() + 1 {
+                    return Err("iterator does not terminate".into());
+                }
+                match it {
+                    Ok(c) => {
+                        let l = 1 + c.len();
+                        let (name, s) = $conv(&c);
+                        out.push((name, l, s));
+                    }
+                    Err(e) => return Err(format!("parse error {:?} after {} commands", e, out.len())),
+                }
+            }
+        }};
+    }
+    match set {
+        0 => run!(parse_uplink_mac_commands, snap_mac_up),
+        1 => run!(parse_downlink_mac_commands, snap_mac_down),
+        2 => run!(parse_uplink_dut_commands, snap_dut_up),
+        3 => run!(parse_downlink_dut_commands, snap_dut_down),
+        4 => run!(parse_uplink_multicast_commands, snap_mc_up),
+        _ => run!(parse_downlink_multicast_commands, snap_mc_down),
+    }
+    Ok(out)
+}
+
+fn b(x: bool) -> u128 {
+    x as u128
+}
+
+fn snap_mac_up(c: &UplinkMacCommand<'_>) -> (&'static str, Snap) {
+    use UplinkMacCommand::*;
+    match c {
+        LinkCheckReq(_) => ("LinkCheckReq", vec![]),
+        LinkADRAns(p) => ("LinkADRAns", vec![("channel_mask_ack", b(p.channel_mask_ack())), ("data_rate_ack", b(p.data_rate_ack())), ("tx_power_ack", b(p.powert_ack())), ("~ack", b(p.ack()))]),
+        DutyCycleAns(_) => ("DutyCycleAns", vec![]),
+        RXParamSetupAns(p) => ("RXParamSetupAns", vec![("channel_ack", b(p.channel_ack())), ("rx2_data_rate_ack", b(p.rx2_data_rate_ack())), ("rx1_dr_offset_ack", b(p.rx1_dr_offset_ack())), ("~ack", b(p.ack()))]),
+        DevStatusAns(p) => ("DevStatusAns", vec![("battery", p.battery() as u128), ("margin", s8(p.margin()))]),
+        NewChannelAns(p) => ("NewChannelAns", vec![("channel_freq_ack", b(p.channel_freq_ack())), ("data_rate_range_ack", b(p.data_rate_range_ack())), ("~ack", b(p.ack()))]),
+        RXTimingSetupAns(_) => ("RXTimingSetupAns", vec![]),
+        TXParamSetupAns(_) => ("TXParamSetupAns", vec![]),
+        DlChannelAns(p) => ("DlChannelAns", vec![("channel_freq_ack", b(p.channel_freq_ack())), ("uplink_freq_ack", b(p.uplink_freq_ack())), ("~ack", b(p.ack()))]),
+        DeviceTimeReq(_) => ("DeviceTimeReq", vec![]),
+    }
+}
+
+fn snap_mac_down(c: &DownlinkMacCommand<'_>) -> (&'static str, Snap) {
+    use DownlinkMacCommand::*;
+    match c {
+        LinkCheckAns(p) => ("LinkCheckAns", vec![("margin", p.margin() as u128), ("gateway_count", p.gateway_count() as u128)]),
+        LinkADRReq(p) => {
+            let m = p.channel_mask();
+            let mut bits = 0u128;
+            for i in 0..16 {
+                if m.is_enabled(i) == Ok(true) {
+                    bits |= 1 << i;
+                }
+            }
+            let r = p.redundancy();
+            (
+                "LinkADRReq",
+                vec![
+                    ("data_rate", p.data_rate() as u8 as u128),
+                    ("tx_power", p.tx_power() as u8 as u128),
+                    ("channel_mask", le128(m.as_ref())),
+                    ("~channel_mask.enabled", bits),
+                    ("redundancy", r.raw_value() as u128),
+                    ("~redundancy.chmaskcntl", r.channel_mask_control() as u128),
+                    ("~redundancy.nbtrans", r.number_of_transmissions() as u128),
+                ],
+            )
+        }
+        DutyCycleReq(p) => ("DutyCycleReq", vec![("max_duty_cycle", p.max_duty_cycle_raw() as u128), ("~max_duty_cycle.f32", p.max_duty_cycle().to_bits() as u128)]),
+        RXParamSetupReq(p) => {
+            let d = p.dl_settings();
+            let f = p.frequency();
+            (
+                "RXParamSetupReq",
+                vec![
+                    ("dl_settings", d.raw_value() as u128),
+                    ("~dl_settings.rx1_dr_offset", d.rx1_dr_offset() as u128),
+                    ("~dl_settings.rx2_data_rate", d.rx2_data_rate() as u8 as u128),
+                    ("frequency", f.value() as u128),
+                    ("~frequency.bytes", le128(f.as_ref())),
+                ],
+            )
+        }
+        DevStatusReq(_) => ("DevStatusReq", vec![]),
+        NewChannelReq(p) => {
+            let f = p.frequency();
+            let (raw, mx, mn) = match p.data_rate_range() {
+                Ok(r) => (r.raw_value() as u128, r.max_data_rate() as u128, r.min_data_rate() as u128),
+                Err(_) => (ERR_MARK, ERR_MARK, ERR_MARK),
+            };
+            (
+                "NewChannelReq",
+                vec![("channel_index", p.channel_index() as u128), ("frequency", f.value() as u128), ("~frequency.bytes", le128(f.as_ref())), ("data_rate_range", raw), ("~data_rate_range.max", mx), ("~data_rate_range.min", mn)],
+            )
+        }
+        RXTimingSetupReq(p) => ("RXTimingSetupReq", vec![("delay", p.delay() as u128)]),
+        TXParamSetupReq(p) => ("TXParamSetupReq", vec![("downlink_dwell_time", b(p.downlink_dwell_time())), ("uplink_dwell_time", b(p.uplink_dwell_time())), ("max_eirp", p.max_eirp() as u128)]),
+        DlChannelReq(p) => {
+            let f = p.frequency();
+            ("DlChannelReq", vec![("channel_index", p.channel_index() as u128), ("frequency", f.value() as u128), ("~frequency.bytes", le128(f.as_ref()))])
+        }
+        DeviceTimeAns(p) => ("DeviceTimeAns", vec![("seconds", p.seconds() as u128), ("nano_seconds", p.nano_seconds() as u128)]),
+    }
+}
+
+fn snap_dut_up(c: &UplinkDUTCommand<'_>) -> (&'static str, Snap) {
+    use UplinkDUTCommand::*;
+    match c {
+        // the payload itself is compared by the dedicated echo generator
+        EchoIncPayloadAns(p) => ("EchoIncPayloadAns", vec![("payload_len", p.payload().len() as u128), ("payload_hash", fnv64(p.payload()) as u128)]),
+        RxAppCntAns(p) => ("RxAppCntAns", vec![("rx_app_cnt", le128(p.bytes()))]),
+        DutVersionsAns(p) => ("DutVersionsAns", vec![("versions_raw", le128(p.bytes()))]),
+    }
+}
+
+fn snap_dut_down(c: &DownlinkDUTCommand<'_>) -> (&'static str, Snap) {
+    use DownlinkDUTCommand::*;
+    fn r<T: Into<u128>>(x: Result<T, lorawan::maccommands::Error>) -> u128 {
+        x.map(|v| v.into()).unwrap_or(ERR_MARK)
+    }
+    match c {
+        DutResetReq(_) => ("DutResetReq", vec![]),
+        DutJoinReq(_) => ("DutJoinReq", vec![]),
+        AdrBitChangeReq(p) => ("AdrBitChangeReq", vec![("adr_enable", r(p.adr_enable()))]),
+        TxPeriodicityChangeReq(p) => ("TxPeriodicityChangeReq", vec![("periodicity", r(p.periodicity().map(|o| o.unwrap_or(0))))]),
+        TxFramesCtrlReq(p) => ("TxFramesCtrlReq", vec![("frame_type", r(p.frame_type_override().map(|o| o.map(|x| 1 + x as u8).unwrap_or(0)))), ("bytes_hash", fnv64(p.bytes()) as u128)]),
+        EchoIncPayloadReq(p) => ("EchoIncPayloadReq", vec![("payload_len", p.payload().len() as u128), ("payload_hash", fnv64(p.payload()) as u128)]),
+        RxAppCntReq(_) => ("RxAppCntReq", vec![]),
+        LinkCheckReq(_) => ("LinkCheckReq", vec![]),
+        DutVersionsReq(_) => ("DutVersionsReq", vec![]),
+    }
+}
+
+fn snap_mc_up(c: &UplinkRemoteSetup<'_>) -> (&'static str, Snap) {
+    use UplinkRemoteSetup::*;
+    match c {
+        PackageVersionAns(p) => ("PackageVersionAns", vec![("package_identifier", p.package_identifier() as u128), ("package_version", p.package_version() as u128)]),
+        McGroupStatusAns(p) => {
+            let mut v: Snap = vec![("nb_total_groups", p.nb_total_groups() as u128), ("ans_group_mask", p.ans_group_mask() as u128)];
+            let mut n = 0u128;
+            let mut h = 0xcbf2_9ce4_8422_2325u64;
+            for it in p.item_iterator().take(8) {
+                n += 1;
+                h = fnv64(&[&h.to_le_bytes()[..], &[it.mc_group_id()], &it.mc_addr().value().to_le_bytes()[..]].concat());
+            }
+            v.push(("items", n));
+            v.push(("items_hash", h as u128));
+            ("McGroupStatusAns", v)
+        }
+        McGroupSetupAns(p) => ("McGroupSetupAns", vec![("mc_group_id_header", p.mc_group_id_header() as u128)]),
+        McGroupDeleteAns(p) => ("McGroupDeleteAns", vec![("mc_group_id_header", p.mc_group_id_header() as u128), ("mc_group_undefined", b(p.mc_group_undefined()))]),
+        McClassCSessionAns(p) => ("McClassCSessionAns", vec![("bytes", le128(p.bytes()))]),
+        McClassBSessionAns(p) => ("McClassBSessionAns", vec![("bytes", le128(p.bytes()))]),
+    }
+}
+
+fn snap_mc_down(c: &DownlinkRemoteSetup<'_>) -> (&'static str, Snap) {
+    use DownlinkRemoteSetup::*;
+    match c {
+        PackageVersionReq(_) => ("PackageVersionReq", vec![]),
+        McGroupStatusReq(p) => ("McGroupStatusReq", vec![("req_group_mask", p.req_group_mask() as u128)]),
+        McGroupSetupReq(p) => {
+            let k = p.mc_key_decrypted(&DefaultCrypto::new(&AES128(KEK)));
+            (
+                "McGroupSetupReq",
+                vec![
+                    ("mc_group_id_header", p.mc_group_id_header() as u128),
+                    ("mc_addr", p.mc_addr().value() as u128),
+                    ("mc_key", le128(k.as_ref())),
+                    ("min_mc_fcount", p.min_mc_fcount() as u128),
+                    ("max_mc_fcount", p.max_mc_fcount() as u128),
+                ],
+            )
+        }
+        McGroupDeleteReq(p) => ("McGroupDeleteReq", vec![("mc_group_id_header", p.mc_group_id_header() as u128)]),
+        McClassCSessionReq(p) => ("McClassCSessionReq", vec![("bytes", le128(p.bytes()))]),
+        McClassBSessionReq(p) => ("McClassBSessionReq", vec![("bytes", le128(p.bytes()))]),
+    }
+}
+
+/// Relations between derived accessors ('~' keys) and the fields, from the specifications.
+fn check_derived(name: &str, s: &Snap) -> Result<(), String> {
+    let g = |k: &str| s.iter().find(|x| x.0 == k).map(|x| x.1);
+    let fail = |what: &str| Err(format!("derived accessor {} inconsistent: {:?}", what, s));
+    match name {
+        "LinkADRAns" => {
+            if g("~ack") != Some((g("channel_mask_ack") == Some(1) && g("data_rate_ack") == Some(1) && g("tx_power_ack") == Some(1)) as u128) {
+                return fail("ack");
+            }
+        }
+        "RXParamSetupAns" => {
+            if g("~ack") != Some((g("channel_ack") == Some(1) && g("rx2_data_rate_ack") == Some(1) && g("rx1_dr_offset_ack") == Some(1)) as u128) {
+                return fail("ack");
+            }
+        }
+        "NewChannelAns" => {
+            if g("~ack") != Some((g("channel_freq_ack") == Some(1) && g("data_rate_range_ack") == Some(1)) as u128) {
+                return fail("ack");
+            }
+        }
+        "DlChannelAns" => {
+            if g("~ack") != Some((g("channel_freq_ack") == Some(1) && g("uplink_freq_ack") == Some(1)) as u128) {
+                return fail("ack");
+            }
+        }
+        "LinkADRReq" => {
+            let r = g("redundancy").unwrap_or(0);
+            if g("~channel_mask.enabled") != g("channel_mask") {
+                return fail("channel_mask.is_enabled");
+            }
+            if g("~redundancy.chmaskcntl") != Some((r >> 4) & 7) || g("~redundancy.nbtrans") != Some(r & 15) {
+                return fail("redundancy");
+            }
+        }
+        "DutyCycleReq" => {
+            let v = g("max_duty_cycle").unwrap_or(0) as u32;
+            let e = 1.0f32 / (1u32 << (v & 15)) as f32;
+            if g("~max_duty_cycle.f32") != Some(e.to_bits() as u128) {
+                return fail("max_duty_cycle()");
+            }
+        }
+        "RXParamSetupReq" => {
+            let d = g("dl_settings").unwrap_or(0);
+            if g("~dl_settings.rx1_dr_offset") != Some((d >> 4) & 7) || g("~dl_settings.rx2_data_rate") != Some(d & 15) {
+                return fail("dl_settings");
+            }
+            if g("~frequency.bytes").map(|x| x * 100) != g("frequency") {
+                return fail("frequency");
+            }
+        }
+        "NewChannelReq" => {
+            if g("~frequency.bytes").map(|x| x * 100) != g("frequency") {
+                return fail("frequency");
+            }
+            let r = g("data_rate_range").unwrap_or(0);
+            if r != ERR_MARK && (g("~data_rate_range.max") != Some(r >> 4) || g("~data_rate_range.min") != Some(r & 15)) {
+                return fail("data_rate_range");
+            }
+        }
+        "DlChannelReq" => {
+            if g("~frequency.bytes").map(|x| x * 100) != g("frequency") {
+                return fail("frequency");
+            }
+        }
+        _ => {}
+    }
+    Ok(())
+}
+
+// ---- builders -----------------------------------------------------------------------------
+
+trait B {
+    fn set(&mut self, f: usize, v: u64) -> Result<(), String>;
+    fn build(&self) -> Vec<u8>;
+    fn len(&self) -> usize;
+    fn ser(&self) -> &dyn SerializableMacCommand;
+    /// The creator wrapped into its set's creator enum.
+    fn wrap(self: Box<Self>) -> Box<dyn SerializableMacCommand>;
+}
+
+fn e2s<T, E: core::fmt::Debug>(r: Result<T, E>) -> Result<(), String> {
+    r.map(|_| ()).map_err(|e| format!("{:?}", e))
+}
+fn freq3(v: u64) -> [u8; 3] {
+    [v as u8, (v >> 8) as u8, (v >> 16) as u8]
+}
+
+macro_rules! builder {
+    ($b:ident, $creator:ty, $wrap:path, |$c:ident, $f:ident, $v:ident| $body:expr) => {
+        struct $b($creator);
+        impl B for $b {
+            #[allow(unused_variables)]
+            fn set(&mut self, $f: usize, $v: u64) -> Result<(), String> {
+                let $c = &mut self.0;
+                $body
+            }
+            fn build(&self) -> Vec<u8> {
+                self.0.build().to_vec()
+            }
+            fn len(&self) -> usize {
+                self.0.len()
+            }
+            fn ser(&self) -> &dyn SerializableMacCommand {
+                &self.0
+            }
+            fn wrap(self: Box<Self>) -> Box<dyn SerializableMacCommand> {
+                Box::new($wrap(self.0))
+            }
+        }
+    };
+}
+
+fn none() -> Result<(), String> {
+    Ok(())
+}
+
+// mac-up
+builder!(BLinkCheckReq, lorawan::maccommands::LinkCheckReqCreator, UplinkMacCommandCreator::LinkCheckReq, |c, f, v| none());
+builder!(BLinkADRAns, LinkADRAnsCreator, UplinkMacCommandCreator::LinkADRAns, |c, f, v| {
+    match f {
+        0 => c.set_channel_mask_ack(v != 0),
+        1 => c.set_data_rate_ack(v != 0),
+        _ => c.set_tx_power_ack(v != 0),
+    };
+    Ok(())
+});
+builder!(BDutyCycleAns, DutyCycleAnsCreator, UplinkMacCommandCreator::DutyCycleAns, |c, f, v| none());
+builder!(BRXParamSetupAns, RXParamSetupAnsCreator, UplinkMacCommandCreator::RXParamSetupAns, |c, f, v| {
+    match f {
+        0 => c.set_channel_ack(v != 0),
+        1 => c.set_rx2_data_rate_ack(v != 0),
+        _ => c.set_rx1_data_rate_offset_ack(v != 0),
+    };
+    Ok(())
+});
+builder!(BDevStatusAns, DevStatusAnsCreator, UplinkMacCommandCreator::DevStatusAns, |c, f, v| match f {
+    0 => {
+        c.set_battery(v as u8);
+        Ok(())
+    }
+    _ => e2s(c.set_margin(v as u8 as i8)),
+});
+builder!(BNewChannelAns, NewChannelAnsCreator, UplinkMacCommandCreator::NewChannelAns, |c, f, v| {
+    match f {
+        0 => c.set_channel_frequency_ack(v != 0),
+        _ => c.set_data_rate_range_ack(v != 0),
+    };
+    Ok(())
+});
+builder!(BRXTimingSetupAns, RXTimingSetupAnsCreator, UplinkMacCommandCreator::RXTimingSetupAns, |c, f, v| none());
+builder!(BTXParamSetupAns, TXParamSetupAnsCreator, UplinkMacCommandCreator::TXParamSetupAns, |c, f, v| none());
+builder!(BDlChannelAns, DlChannelAnsCreator, UplinkMacCommandCreator::DlChannelAns, |c, f, v| {
+    match f {
+        0 => c.set_channel_frequency_ack(v != 0),
+        _ => c.set_uplink_frequency_exists_ack(v != 0),
+    };
+    Ok(())
+});
+builder!(BDeviceTimeReq, DeviceTimeReqCreator, UplinkMacCommandCreator::DeviceTimeReq, |c, f, v| none());
+
+// mac-down
+builder!(BLinkCheckAns, LinkCheckAnsCreator, DownlinkMacCommandCreator::LinkCheckAns, |c, f, v| {
+    match f {
+        0 => c.set_margin(v as u8),
+        _ => c.set_gateway_count(v as u8),
+    };
+    Ok(())
+});
+builder!(BLinkADRReq, LinkADRReqCreator, DownlinkMacCommandCreator::LinkADRReq, |c, f, v| match f {
+    0 => e2s(c.set_data_rate(v as u8)),
+    1 => e2s(c.set_tx_power(v as u8)),
+    2 => {
+        c.set_channel_mask([v as u8, (v >> 8) as u8]);
+        Ok(())
+    }
+    _ => {
+        c.set_redundancy(v as u8);
+        Ok(())
+    }
+});
+builder!(BDutyCycleReq, DutyCycleReqCreator, DownlinkMacCommandCreator::DutyCycleReq, |c, f, v| e2s(c.set_max_duty_cycle(v as u8)));
+builder!(BRXParamSetupReq, RXParamSetupReqCreator, DownlinkMacCommandCreator::RXParamSetupReq, |c, f, v| {
+    match f {
+        0 => c.set_dl_settings(v as u8),
+        _ => c.set_frequency(&freq3(v)),
+    };
+    Ok(())
+});
+builder!(BDevStatusReq, DevStatusReqCreator, DownlinkMacCommandCreator::DevStatusReq, |c, f, v| none());
+builder!(BNewChannelReq, NewChannelReqCreator, DownlinkMacCommandCreator::NewChannelReq, |c, f, v| {
+    match f {
+        0 => c.set_channel_index(v as u8),
+        1 => c.set_frequency(&freq3(v)),
+        _ => c.set_data_rate_range(v as u8),
+    };
+    Ok(())
+});
+builder!(BRXTimingSetupReq, RXTimingSetupReqCreator, DownlinkMacCommandCreator::RXTimingSetupReq, |c, f, v| e2s(c.set_delay(v as u8)));
+builder!(BTXParamSetupReq, TXParamSetupReqCreator, DownlinkMacCommandCreator::TXParamSetupReq, |c, f, v| match f {
+    0 => {
+        c.set_downlink_dwell_time(v != 0);
+        Ok(())
+    }
+    1 => {
+        c.set_uplink_dwell_time(v != 0);
+        Ok(())
+    }
+    _ => e2s(c.set_max_eirp(v as u8)),
+});
+builder!(BDlChannelReq, DlChannelReqCreator, DownlinkMacCommandCreator::DlChannelReq, |c, f, v| {
+    match f {
+        0 => c.set_channel_index(v as u8),
+        _ => c.set_frequency(&freq3(v)),
+    };
+    Ok(())
+});
+builder!(BDeviceTimeAns, DeviceTimeAnsCreator, DownlinkMacCommandCreator::DeviceTimeAns, |c, f, v| match f {
+    0 => {
+        c.set_seconds(v as u32);
+        Ok(())
+    }
+    _ => e2s(c.set_nano_seconds(v as u32)),
+});
+
+// dut-up
+builder!(BRxAppCntAns, RxAppCntAnsCreator, UplinkDUTCommandCreator::RxAppCntAns, |c, f, v| {
+    c.set_rx_app_cnt(v as u16);
+    Ok(())
+});
+builder!(BDutVersionsAns, DutVersionsAnsCreator, UplinkDUTCommandCreator::DutVersionsAns, |c, f, v| {
+    c.set_versions_raw(expand12(v));
+    Ok(())
+});
+// dut-down (no setters)
+builder!(BDutResetReq, DutResetReqCreator, DownlinkDUTCommandCreator::DutResetReq, |c, f, v| none());
+builder!(BDutJoinReq, DutJoinReqCreator, DownlinkDUTCommandCreator::DutJoinReq, |c, f, v| none());
+builder!(BAdrBitChangeReq, AdrBitChangeReqCreator, DownlinkDUTCommandCreator::AdrBitChangeReq, |c, f, v| none());
+builder!(BTxPeriodicityChangeReq, TxPeriodicityChangeReqCreator, DownlinkDUTCommandCreator::TxPeriodicityChangeReq, |c, f, v| none());
+builder!(BRxAppCntReq, RxAppCntReqCreator, DownlinkDUTCommandCreator::RxAppCntReq, |c, f, v| none());
+builder!(BDutLinkCheckReq, lorawan::certification::LinkCheckReqCreator, DownlinkDUTCommandCreator::LinkCheckReq, |c, f, v| none());
+builder!(BDutVersionsReq, DutVersionsReqCreator, DownlinkDUTCommandCreator::DutVersionsReq, |c, f, v| none());
+
+// mc-up
+builder!(BPackageVersionAns, PackageVersionAnsCreator, UplinkRemoteSetupCreator::PackageVersionAns, |c, f, v| {
+    match f {
+        0 => c.package_identifier(v as u8),
+        _ => c.package_version(v as u8),
+    };
+    Ok(())
+});
+builder!(BMcGroupSetupAns, McGroupSetupAnsCreator, UplinkRemoteSetupCreator::McGroupSetupAns, |c, f, v| {
+    c.mc_group_id_header(v as u8);
+    Ok(())
+});
+builder!(BMcGroupDeleteAns, McGroupDeleteAnsCreator, UplinkRemoteSetupCreator::McGroupDeleteAns, |c, f, v| {
+    match f {
+        0 => c.mc_group_id_header(v as u8),
+        _ => c.mc_group_undefined(v != 0),
+    };
+    Ok(())
+});
+builder!(BMcClassCSessionAns, McClassCSessionAnsCreator, UplinkRemoteSetupCreator::McClassCSessionAns, |c, f, v| none());
+builder!(BMcClassBSessionAns, McClassBSessionAnsCreator, UplinkRemoteSetupCreator::McClassBSessionAns, |c, f, v| none());
+// the only field of McGroupStatusAns handled generically; push() has its own generator
+builder!(BMcGroupStatusAns, McGroupStatusAnsCreator, UplinkRemoteSetupCreator::McGroupStatusAns, |c, f, v| {
+    c.nb_total_groups(v as u8);
+    Ok(())
+});
+
+// mc-down
+builder!(BPackageVersionReq, PackageVersionReqCreator, DownlinkRemoteSetupCreator::PackageVersionReq, |c, f, v| none());
+builder!(BMcGroupStatusReq, McGroupStatusReqCreator, DownlinkRemoteSetupCreator::McGroupStatusReq, |c, f, v| {
+    c.req_group_mask(v as u8);
+    Ok(())
+});
+builder!(BMcGroupSetupReq, McGroupSetupReqCreator, DownlinkRemoteSetupCreator::McGroupSetupReq, |c, f, v| {
+    match f {
+        0 => c.mc_group_id_header(v as u8),
+        1 => c.mc_addr(&McAddr::from_value(v as u32)),
+        2 => c.mc_key(&DefaultNetworkCrypto::new(&AES128(KEK)), &keys::McKey::from(expand16(v))),
+        3 => c.min_mc_fcount(v as u32),
+        _ => c.max_mc_fcount(v as u32),
+    };
+    Ok(())
+});
+builder!(BMcGroupDeleteReq, McGroupDeleteReqCreator, DownlinkRemoteSetupCreator::McGroupDeleteReq, |c, f, v| {
+    c.mc_group_id_header(v as u8);
+    Ok(())
+});
+builder!(BMcClassCSessionReq, McClassCSessionReqCreator, DownlinkRemoteSetupCreator::McClassCSessionReq, |c, f, v| none());
+builder!(BMcClassBSessionReq, McClassBSessionReqCreator, DownlinkRemoteSetupCreator::McClassBSessionReq, |c, f, v| none());
+
+// ---- independent command descriptions -----------------------------------------------------
+
+/// One settable field. `mask` lists the bits of the built command (index 0 = CID) the field
+/// owns according to the specification.
+struct F {
+    name: &'static str,
+    /// width of the setter's argument domain
+    bits: u32,
+    mask: Vec<(usize, u8)>,
+    adm: fn(u64) -> bool,
+    /// an admissible argument with the effect of `v` truncated to the field width
+    trunc: fn(u64) -> u64,
+    /// what the accessors must report after `set(v)`, v admissible: (key, acceptable values)
+    exp: fn(u64) -> Vec<(&'static str, Vec<u128>)>,
+    /// additional acceptable accessor outcome for an out-of-range value (the parser refuses it)
+    oor_alt: Option<fn(u64) -> Vec<(&'static str, Vec<u128>)>>,
+}
+
+struct Cmd {
+    set: usize,
+    name: &'static str,
+    cid: u8,
+    plen: usize,
+    fields: Vec<F>,
+    make: fn() -> Box<dyn B>,
+}
+
+fn any(_: u64) -> bool {
+    true
+}
+fn le15(v: u64) -> bool {
+    v <= 15
+}
+fn idt(v: u64) -> u64 {
+    v
+}
+fn lo4(v: u64) -> u64 {
+    v & 15
+}
+fn lo2(v: u64) -> u64 {
+    v & 3
+}
+fn lo3(v: u64) -> u64 {
+    v & 7
+}
+
+fn fld(name: &'static str, bits: u32, mask: &[(usize, u8)], adm: fn(u64) -> bool, trunc: fn(u64) -> u64, exp: fn(u64) -> Vec<(&'static str, Vec<u128>)>) -> F {
+    F { name, bits, mask: mask.to_vec(), adm, trunc, exp, oor_alt: None }
+}
+
+const EIRP: [u128; 16] = [8, 10, 12, 13, 14, 16, 18, 20, 21, 24, 26, 27, 29, 30, 33, 36];
+const NS_STEP: u64 = 3_906_250; // 1/256 s
+
+fn commands() -> Vec<Cmd> {
+    macro_rules! mk {
+        ($b:ident, $c:ty) => {
+            || -> Box<dyn B> { Box::new($b(<$c>::new())) }
+        };
+    }
+    macro_rules! e {
+        ($k:expr, $v:expr) => {
+            |v: u64| vec![($k, vec![($v)(v)])]
+        };
+    }
+    let bit = |name: &'static str, key: &'static str, pos: u8| -> F {
+        // boolean flag at bit `pos` of payload octet 1; the key is carried through a table
+        // because fn pointers cannot capture
+        let exp: fn(u64) -> Vec<(&'static str, Vec<u128>)> = match key {
+            "channel_mask_ack" => |v| vec![("channel_mask_ack", vec![(v != 0) as u128])],
+            "data_rate_ack" => |v| vec![("data_rate_ack", vec![(v != 0) as u128])],
+            "tx_power_ack" => |v| vec![("tx_power_ack", vec![(v != 0) as u128])],
+            "channel_ack" => |v| vec![("channel_ack", vec![(v != 0) as u128])],
+            "rx2_data_rate_ack" => |v| vec![("rx2_data_rate_ack", vec![(v != 0) as u128])],
+            "rx1_dr_offset_ack" => |v| vec![("rx1_dr_offset_ack", vec![(v != 0) as u128])],
+            "channel_freq_ack" => |v| vec![("channel_freq_ack", vec![(v != 0) as u128])],
+            "data_rate_range_ack" => |v| vec![("data_rate_range_ack", vec![(v != 0) as u128])],
+            "uplink_freq_ack" => |v| vec![("uplink_freq_ack", vec![(v != 0) as u128])],
+            "downlink_dwell_time" => |v| vec![("downlink_dwell_time", vec![(v != 0) as u128])],
+            "uplink_dwell_time" => |v| vec![("uplink_dwell_time", vec![(v != 0) as u128])],
+            _ => |v| vec![("mc_group_undefined", vec![(v != 0) as u128])],
+        };
+        fld(name, 1, &[(1, 1 << pos)], any, idt, exp)
+    };
+    let freq = |at: usize| -> F { fld("frequency", 24, &[(at, 0xff), (at + 1, 0xff), (at + 2, 0xff)], any, idt, |v| vec![("frequency", vec![v as u128 * 100])]) };
+    let mut drr = fld("data_rate_range", 8, &[(5, 0xff)], |v| (v >> 4) >= (v & 15), idt, e!("data_rate_range", |v| v as u128));
+    // a range with max < min is written as given and refused by the parser's accessor
+    drr.oor_alt = Some(|_| vec![("data_rate_range", vec![ERR_MARK])]);
+    let margin = fld(
+        "margin",
+        8,
+        &[(2, 0x3f)],
+        |v| (-32..=31).contains(&(v as u8 as i8)),
+        |v| (((v as u8) << 2) as i8 >> 2) as u8 as u64,
+        |v| vec![("margin", vec![s8(v as u8 as i8)])],
+    );
+    let nanos = fld(
+        "nano_seconds",
+        32,
+        &[(5, 0xff)],
+        |v| v < 1_000_000_000,
+        |v| ((v / NS_STEP) & 0xff) * NS_STEP,
+        // the 8-bit fraction counts 1/256 s; rounding down or to nearest are both accepted
+        |v| {
+            let lo = v / NS_STEP;
+            let near = ((v + NS_STEP / 2) / NS_STEP).min(255);
+            vec![("nano_seconds", vec![(lo * NS_STEP) as u128, (near * NS_STEP) as u128])]
+        },
+    );
+    vec![
+        // ---- LoRaWAN MAC, uplink ----
+        Cmd { set: 0, name: "LinkCheckReq", cid: 0x02, plen: 0, fields: vec![], make: mk!(BLinkCheckReq, lorawan::maccommands::LinkCheckReqCreator) },
+        Cmd {
+            set: 0,
+            name: "LinkADRAns",
+            cid: 0x03,
+            plen: 1,
+            fields: vec![bit("channel_mask_ack", "channel_mask_ack", 0), bit("data_rate_ack", "data_rate_ack", 1), bit("tx_power_ack", "tx_power_ack", 2)],
+            make: mk!(BLinkADRAns, LinkADRAnsCreator),
+        },
+        Cmd { set: 0, name: "DutyCycleAns", cid: 0x04, plen: 0, fields: vec![], make: mk!(BDutyCycleAns, DutyCycleAnsCreator) },
+        Cmd {
+            set: 0,
+            name: "RXParamSetupAns",
+            cid: 0x05,
+            plen: 1,
+            fields: vec![bit("channel_ack", "channel_ack", 0), bit("rx2_data_rate_ack", "rx2_data_rate_ack", 1), bit("rx1_data_rate_offset_ack", "rx1_dr_offset_ack", 2)],
+            make: mk!(BRXParamSetupAns, RXParamSetupAnsCreator),
+        },
+        Cmd {
+            set: 0,
+            name: "DevStatusAns",
+            cid: 0x06,
+            plen: 2,
+            fields: vec![fld("battery", 8, &[(1, 0xff)], any, idt, e!("battery", |v| v as u128)), margin],
+            make: mk!(BDevStatusAns, DevStatusAnsCreator),
+        },
+        Cmd {
+            set: 0,
+            name: "NewChannelAns",
+            cid: 0x07,
+            plen: 1,
+            fields: vec![bit("channel_frequency_ack", "channel_freq_ack", 0), bit("data_rate_range_ack", "data_rate_range_ack", 1)],
+            make: mk!(BNewChannelAns, NewChannelAnsCreator),
+        },
+        Cmd { set: 0, name: "RXTimingSetupAns", cid: 0x08, plen: 0, fields: vec![], make: mk!(BRXTimingSetupAns, RXTimingSetupAnsCreator) },
+        Cmd { set: 0, name: "TXParamSetupAns", cid: 0x09, plen: 0, fields: vec![], make: mk!(BTXParamSetupAns, TXParamSetupAnsCreator) },
+        Cmd {
+            set: 0,
+            name: "DlChannelAns",
+            cid: 0x0A,
+            plen: 1,
+            fields: vec![bit("channel_frequency_ack", "channel_freq_ack", 0), bit("uplink_frequency_exists_ack", "uplink_freq_ack", 1)],
+            make: mk!(BDlChannelAns, DlChannelAnsCreator),
+        },
+        Cmd { set: 0, name: "DeviceTimeReq", cid: 0x0D, plen: 0, fields: vec![], make: mk!(BDeviceTimeReq, DeviceTimeReqCreator) },
+        // ---- LoRaWAN MAC, downlink ----
+        Cmd {
+            set: 1,
+            name: "LinkCheckAns",
+            cid: 0x02,
+            plen: 2,
+            fields: vec![fld("margin", 8, &[(1, 0xff)], any, idt, e!("margin", |v| v as u128)), fld("gateway_count", 8, &[(2, 0xff)], any, idt, e!("gateway_count", |v| v as u128))],
+            make: mk!(BLinkCheckAns, LinkCheckAnsCreator),
+        },
+        Cmd {
+            set: 1,
+            name: "LinkADRReq",
+            cid: 0x03,
+            plen: 4,
+            fields: vec![
+                fld("data_rate", 8, &[(1, 0xf0)], le15, lo4, e!("data_rate", |v| v as u128)),
+                fld("tx_power", 8, &[(1, 0x0f)], le15, lo4, e!("tx_power", |v| v as u128)),
+                fld("channel_mask", 16, &[(2, 0xff), (3, 0xff)], any, idt, e!("channel_mask", |v| v as u128)),
+                fld("redundancy", 8, &[(4, 0xff)], any, idt, e!("redundancy", |v| v as u128)),
+            ],
+            make: mk!(BLinkADRReq, LinkADRReqCreator),
+        },
+        Cmd { set: 1, name: "DutyCycleReq", cid: 0x04, plen: 1, fields: vec![fld("max_duty_cycle", 8, &[(1, 0x0f)], le15, lo4, e!("max_duty_cycle", |v| v as u128))], make: mk!(BDutyCycleReq, DutyCycleReqCreator) },
+        Cmd {
+            set: 1,
+            name: "RXParamSetupReq",
+            cid: 0x05,
+            plen: 4,
+            fields: vec![fld("dl_settings", 8, &[(1, 0xff)], any, idt, e!("dl_settings", |v| v as u128)), freq(2)],
+            make: mk!(BRXParamSetupReq, RXParamSetupReqCreator),
+        },
+        Cmd { set: 1, name: "DevStatusReq", cid: 0x06, plen: 0, fields: vec![], make: mk!(BDevStatusReq, DevStatusReqCreator) },
+        Cmd {
+            set: 1,
+            name: "NewChannelReq",
+            cid: 0x07,
+            plen: 5,
+            fields: vec![fld("channel_index", 8, &[(1, 0xff)], any, idt, e!("channel_index", |v| v as u128)), freq(2), drr],
+            make: mk!(BNewChannelReq, NewChannelReqCreator),
+        },
+        Cmd { set: 1, name: "RXTimingSetupReq", cid: 0x08, plen: 1, fields: vec![fld("delay", 8, &[(1, 0x0f)], le15, lo4, e!("delay", |v| v as u128))], make: mk!(BRXTimingSetupReq, RXTimingSetupReqCreator) },
+        Cmd {
+            set: 1,
+            name: "TXParamSetupReq",
+            cid: 0x09,
+            plen: 1,
+            fields: vec![
+                bit("downlink_dwell_time", "downlink_dwell_time", 5),
+                bit("uplink_dwell_time", "uplink_dwell_time", 4),
+                // MaxEIRP index -> dBm (LoRaWAN 1.0.4 table 5-? "TXParamSetupReq MaxEIRP")
+                fld("max_eirp", 8, &[(1, 0x0f)], le15, lo4, |v| vec![("max_eirp", vec![EIRP[(v & 15) as usize]])]),
+            ],
+            make: mk!(BTXParamSetupReq, TXParamSetupReqCreator),
+        },
+        Cmd {
+            set: 1,
+            name: "DlChannelReq",
+            cid: 0x0A,
+            plen: 4,
+            fields: vec![fld("channel_index", 8, &[(1, 0xff)], any, idt, e!("channel_index", |v| v as u128)), freq(2)],
+            make: mk!(BDlChannelReq, DlChannelReqCreator),
+        },
+        Cmd {
+            set: 1,
+            name: "DeviceTimeAns",
+            cid: 0x0D,
+            plen: 5,
+            fields: vec![fld("seconds", 32, &[(1, 0xff), (2, 0xff), (3, 0xff), (4, 0xff)], any, idt, e!("seconds", |v| v as u128)), nanos],
+            make: mk!(BDeviceTimeAns, DeviceTimeAnsCreator),
+        },
+        // ---- certification, uplink (EchoIncPayloadAns has its own generator) ----
+        Cmd { set: 2, name: "RxAppCntAns", cid: 0x09, plen: 2, fields: vec![fld("rx_app_cnt", 16, &[(1, 0xff), (2, 0xff)], any, idt, e!("rx_app_cnt", |v| v as u128))], make: mk!(BRxAppCntAns, RxAppCntAnsCreator) },
+        Cmd {
+            set: 2,
+            name: "DutVersionsAns",
+            cid: 0x7F,
+            plen: 12,
+            fields: vec![fld("versions_raw", 64, &[(1, 0xff), (2, 0xff), (3, 0xff), (4, 0xff), (5, 0xff), (6, 0xff), (7, 0xff), (8, 0xff), (9, 0xff), (10, 0xff), (11, 0xff), (12, 0xff)], any, idt, |v| vec![("versions_raw", vec![le128(&expand12(v))])])],
+            make: mk!(BDutVersionsAns, DutVersionsAnsCreator),
+        },
+        // ---- certification, downlink: creators without setters ----
+        Cmd { set: 3, name: "DutResetReq", cid: 0x01, plen: 0, fields: vec![], make: mk!(BDutResetReq, DutResetReqCreator) },
+        Cmd { set: 3, name: "DutJoinReq", cid: 0x02, plen: 0, fields: vec![], make: mk!(BDutJoinReq, DutJoinReqCreator) },
+        Cmd { set: 3, name: "AdrBitChangeReq", cid: 0x04, plen: 1, fields: vec![], make: mk!(BAdrBitChangeReq, AdrBitChangeReqCreator) },
+        Cmd { set: 3, name: "TxPeriodicityChangeReq", cid: 0x06, plen: 1, fields: vec![], make: mk!(BTxPeriodicityChangeReq, TxPeriodicityChangeReqCreator) },
+        Cmd { set: 3, name: "RxAppCntReq", cid: 0x09, plen: 0, fields: vec![], make: mk!(BRxAppCntReq, RxAppCntReqCreator) },
+        Cmd { set: 3, name: "LinkCheckReq", cid: 0x20, plen: 0, fields: vec![], make: mk!(BDutLinkCheckReq, lorawan::certification::LinkCheckReqCreator) },
+        Cmd { set: 3, name: "DutVersionsReq", cid: 0x7F, plen: 0, fields: vec![], make: mk!(BDutVersionsReq, DutVersionsReqCreator) },
+        // ---- multicast setup, uplink ----
+        Cmd {
+            set: 4,
+            name: "PackageVersionAns",
+            cid: 0x00,
+            plen: 2,
+            fields: vec![fld("package_identifier", 8, &[(1, 0xff)], any, idt, e!("package_identifier", |v| v as u128)), fld("package_version", 8, &[(2, 0xff)], any, idt, e!("package_version", |v| v as u128))],
+            make: mk!(BPackageVersionAns, PackageVersionAnsCreator),
+        },
+        Cmd { set: 4, name: "McGroupStatusAns", cid: 0x01, plen: 1, fields: vec![fld("nb_total_groups", 8, &[(1, 0x70)], |v| v <= 7, lo3, e!("nb_total_groups", |v| v as u128))], make: mk!(BMcGroupStatusAns, McGroupStatusAnsCreator) },
+        Cmd { set: 4, name: "McGroupSetupAns", cid: 0x02, plen: 1, fields: vec![fld("mc_group_id_header", 8, &[(1, 0x03)], |v| v <= 3, lo2, e!("mc_group_id_header", |v| v as u128))], make: mk!(BMcGroupSetupAns, McGroupSetupAnsCreator) },
+        Cmd {
+            set: 4,
+            name: "McGroupDeleteAns",
+            cid: 0x03,
+            plen: 1,
+            fields: vec![fld("mc_group_id_header", 8, &[(1, 0x03)], |v| v <= 3, lo2, e!("mc_group_id_header", |v| v as u128)), bit("mc_group_undefined", "mc_group_undefined", 2)],
+            make: mk!(BMcGroupDeleteAns, McGroupDeleteAnsCreator),
+        },
+        Cmd { set: 4, name: "McClassCSessionAns", cid: 0x04, plen: 4, fields: vec![], make: mk!(BMcClassCSessionAns, McClassCSessionAnsCreator) },
+        Cmd { set: 4, name: "McClassBSessionAns", cid: 0x05, plen: 4, fields: vec![], make: mk!(BMcClassBSessionAns, McClassBSessionAnsCreator) },
+        // ---- multicast setup, downlink ----
+        Cmd { set: 5, name: "PackageVersionReq", cid: 0x00, plen: 0, fields: vec![], make: mk!(BPackageVersionReq, PackageVersionReqCreator) },
+        Cmd { set: 5, name: "McGroupStatusReq", cid: 0x01, plen: 1, fields: vec![fld("req_group_mask", 8, &[(1, 0x0f)], le15, lo4, e!("req_group_mask", |v| v as u128))], make: mk!(BMcGroupStatusReq, McGroupStatusReqCreator) },
+        Cmd {
+            set: 5,
+            name: "McGroupSetupReq",
+            cid: 0x02,
+            plen: 29,
+            fields: vec![
+                fld("mc_group_id_header", 8, &[(1, 0x03)], |v| v <= 3, lo2, e!("mc_group_id_header", |v| v as u128)),
+                fld("mc_addr", 32, &[(2, 0xff), (3, 0xff), (4, 0xff), (5, 0xff)], any, idt, e!("mc_addr", |v| v as u128)),
+                fld("mc_key", 64, &(6..22).map(|i| (i, 0xffu8)).collect::<Vec<_>>(), any, idt, |v| vec![("mc_key", vec![le128(&expand16(v))])]),
+                fld("min_mc_fcount", 32, &[(22, 0xff), (23, 0xff), (24, 0xff), (25, 0xff)], any, idt, e!("min_mc_fcount", |v| v as u128)),
+                fld("max_mc_fcount", 32, &[(26, 0xff), (27, 0xff), (28, 0xff), (29, 0xff)], any, idt, e!("max_mc_fcount", |v| v as u128)),
+            ],
+            make: mk!(BMcGroupSetupReq, McGroupSetupReqCreator),
+        },
+        Cmd { set: 5, name: "McGroupDeleteReq", cid: 0x03, plen: 1, fields: vec![fld("mc_group_id_header", 8, &[(1, 0x03)], |v| v <= 3, lo2, e!("mc_group_id_header", |v| v as u128))], make: mk!(BMcGroupDeleteReq, McGroupDeleteReqCreator) },
+        Cmd { set: 5, name: "McClassCSessionReq", cid: 0x04, plen: 10, fields: vec![], make: mk!(BMcClassCSessionReq, McClassCSessionReqCreator) },
+        Cmd { set: 5, name: "McClassBSessionReq", cid: 0x05, plen: 10, fields: vec![], make: mk!(BMcClassBSessionReq, McClassBSessionReqCreator) },
+    ]
+}
+
+// ---- the field oracle ---------------------------------------------------------------------
+
+fn full(bits: u32) -> u64 {
+    if bits >= 64 {
+        u64::MAX
+    } else {
+        (1u64 << bits) - 1
+    }
+}
+
+fn vclass(f: &F, v: u64) -> &'static str {
+    let top = full(f.bits);
+    if (f.adm)(v) {
+        if v == 0 {
+            "zero"
+        } else if v == top {
+            "all-ones"
+        } else if v < top && !(f.adm)(v + 1) {
+            "max-admissible"
+        } else if v.is_power_of_two() {
+            "single-bit"
+        } else {
+            "admissible"
+        }
+    } else if v > 0 && (f.adm)(v - 1) {
+        "first-out-of-range"
+    } else if v == top {
+        "out-of-range-all-ones"
+    } else {
+        "out-of-range"
+    }
+}
+
+/// A random admissible argument for field `f`.
+fn rand_adm(f: &F, rng: &mut Prng) -> u64 {
+    for _ in 0..64 {
+        let v = rng.next_u64() & full(f.bits);
+        if (f.adm)(v) {
+            return v;
+        }
+    }
+    (f.trunc)(rng.next_u64() & full(f.bits))
+}
+
+fn get(s: &Snap, k: &str) -> Option<u128> {
+    s.iter().find(|x| x.0 == k).map(|x| x.1)
+}
+
+fn swapped(exp: u128, got: u128, bytes: usize) -> bool {
+    if bytes < 2 || exp == got {
+        return false;
+    }
+    let mut e = exp.to_le_bytes()[..bytes].to_vec();
+    e.reverse();
+    le128(&e) == got
+}
+
+struct Verdict {
+    class: &'static str,
+    /// (failure kind, human text)
+    fail: Option<(String, String)>,
+}
+
+fn ok(class: &'static str) -> Verdict {
+    Verdict { class, fail: None }
+}
+fn bad(kind: &str, text: String) -> Verdict {
+    Verdict { class: "violation", fail: Some((kind.to_string(), text)) }
+}
+
+/// Does snapshot `s` show field `f` holding (admissible) value `v`?
+fn field_holds(f: &F, v: u64, s: &Snap) -> Result<(), (String, String)> {
+    for (k, acc) in (f.exp)(v) {
+        let got = get(s, k);
+        match got {
+            Some(g) if acc.contains(&g) => {}
+            _ => {
+                let g = got.unwrap_or(ERR_MARK);
+                let nbytes = f.mask.len();
+                let kind = if acc.iter().any(|e| swapped(*e, g, nbytes)) { "roundtrip-byteswapped" } else { "roundtrip-differs" };
+                return Err((kind.into(), format!("accessor {} reports {:#x}, acceptable {:x?}", k, g, acc)));
+            }
+        }
+    }
+    Ok(())
+}
+
+/// Judges one `set(field, v)` on creator `c` whose state before the call was `before`.
+fn judge_set(cmd: &Cmd, fi: usize, v: u64, before: &[u8], res: &Result<Result<(), String>, Trapped>, after: &[u8]) -> Verdict {
+    let f = &cmd.fields[fi];
+    let admissible = (f.adm)(v);
+    match res {
+        Err(t) => return bad("panic", format!("setter panicked: {} at {}", t.msg, t.loc)),
+        Ok(Err(e)) => {
+            if after != before {
+                return bad("refused-but-changed", format!("setter returned Err({}) but the command changed", e));
+            }
+            if admissible {
+                return bad("refused-admissible", format!("admissible value refused with Err({})", e));
+            }
+            return ok("refused");
+        }
+        Ok(Ok(())) => {}
+    }
+    if after.len() != 1 + cmd.plen || after.first() != Some(&cmd.cid) {
+        return bad("wrong-shape", format!("built command has length {} / CID {:?}, specification says {} / {:#04x}", after.len(), after.first(), 1 + cmd.plen, cmd.cid));
+    }
+    let sa = match snap_one(cmd.set, after) {
+        Ok((n, s)) if n == cmd.name => s,
+        Ok((n, _)) => return bad("parses-as-other-command", format!("parsed as {}", n)),
+        Err(e) => return bad("does-not-parse", e),
+    };
+    if let Err(e) = check_derived(cmd.name, &sa) {
+        return bad("derived-accessor", e);
+    }
+    let sb = match snap_one(cmd.set, before) {
+        Ok((_, s)) => s,
+        Err(e) => return bad("does-not-parse", format!("state before the call: {}", e)),
+    };
+    // keys this field determines
+    let keys: Vec<&'static str> = (f.exp)((f.trunc)(v)).into_iter().map(|x| x.0).collect();
+    let others_same = |sa: &Snap, sb: &Snap| -> Option<String> {
+        for (k, val) in sa.iter() {
+            if k.starts_with('~') || keys.contains(k) {
+                continue;
+            }
+            if get(sb, k) != Some(*val) {
+                return Some(format!("field {} changed from {:x?} to {:#x}", k, get(sb, k), val));
+            }
+        }
+        None
+    };
+    if admissible {
+        if let Err((k, t)) = field_holds(f, v, &sa) {
+            return bad(&k, t);
+        }
+        if let Some(t) = others_same(&sa, &sb) {
+            return bad("other-field-changed", t);
+        }
+        return ok("roundtrip");
+    }
+    // out of range and accepted: the field must hold the truncated value (or the parser must
+    // refuse it) and no bit outside the field may have changed
+    for (i, (x, y)) in before.iter().zip(after.iter()).enumerate() {
+        let m = f.mask.iter().filter(|p| p.0 == i).fold(0u8, |a, p| a | p.1);
+        if (x ^ y) & !m != 0 {
+            return bad("out-of-range-disturbs-other-bits", format!("octet {} changed from {:#04x} to {:#04x}; the field owns mask {:#04x}", i, x, y, m));
+        }
+    }
+    if let Some(alt) = f.oor_alt {
+        if alt(v).iter().all(|(k, acc)| get(&sa, k).map(|g| acc.contains(&g)).unwrap_or(false)) {
+            return ok("parser-refused");
+        }
+    }
+    if let Err((_, t)) = field_holds(f, (f.trunc)(v), &sa) {
+        return bad("out-of-range-wrong-value", format!("neither refused nor truncated to the field: {}", t));
+    }
+    if let Some(t) = others_same(&sa, &sb) {
+        return bad("other-field-changed", t);
+    }
+    ok("truncated")
+}
+
+/// Runs scenario `sc` (0 fresh creator, 1 all fields pre-set, 2 same field pre-set to the
+/// complement first) for `set(field, v)` and reports.
+fn run_field(cmd: &Cmd, fi: usize, v: u64, sc: u8, rng: &mut Prng, col: &mut Collector) {
+    let f = &cmd.fields[fi];
+    let mut c = (cmd.make)();
+    let mut script: Vec<(usize, u64)> = vec![];
+    if sc > 0 {
+        for (gi, g) in cmd.fields.iter().enumerate() {
+            if gi != fi {
+                script.push((gi, rand_adm(g, rng)));
+            }
+        }
+        let prev = if sc == 2 { (f.trunc)(!v & full(f.bits)) } else { rand_adm(f, rng) };
+        script.push((fi, prev));
+        for (gi, gv) in script.iter() {
+            let r = trap(|| c.set(*gi, *gv));
+            if r.is_err() {
+                // judged when that field is the subject
+                col.event("prefill_panicked");
+                return;
+            }
+        }
+    }
+    let before = c.build();
+    let res = trap(|| c.set(fi, v));
+    let after = match trap(|| c.build()) {
+        Ok(a) => a,
+        Err(t) => {
+            report(cmd, f.name, "build-panicked", vclass(f, v), &format!("build() panicked after set: {}", t.msg), json!({"value": v, "loc": t.loc}), col);
+            return;
+        }
+    };
+    let mut vd = judge_set(cmd, fi, v, &before, &res, &after);
+    // a value that round-trips on a fresh creator but not over an earlier value of the same
+    // field is the "later set overrides earlier" clause
+    if sc > 0 {
+        if let Some((k, _)) = &vd.fail {
+            if k.starts_with("roundtrip") || k == "out-of-range-wrong-value" {
+                let mut c0 = (cmd.make)();
+                let b0 = c0.build();
+                let r0 = trap(|| c0.set(fi, v));
+                if let Ok(a0) = trap(|| c0.build()) {
+                    if judge_set(cmd, fi, v, &b0, &r0, &a0).fail.is_none() {
+                        vd.fail = vd.fail.map(|(_, t)| ("later-set-does-not-override".to_string(), t));
+                    }
+                }
+            }
+        }
+    }
+    col.eval(&format!("{}|{}|{}|{}|{}", SETS[cmd.set], cmd.name, f.name, vclass(f, v), vd.class));
+    col.event(match vd.class {
+        "roundtrip" => "field_roundtrip_ok",
+        "refused" => "out_of_range_refused",
+        "truncated" => "out_of_range_truncated",
+        "parser-refused" => "out_of_range_refused_by_parser",
+        _ => "field_violation",
+    });
+    if sc == 2 && vd.fail.is_none() {
+        col.event("override_ok");
+    }
+    if col.want_sample() {
+        col.sample(json!({"command": cmd.name, "field": f.name, "value": v, "scenario": sc, "before": hex(&before), "after": hex(&after), "verdict": vd.class}));
+    }
+    if let Some((kind, text)) = vd.fail {
+        let oor = if (f.adm)(v) { "" } else { "|out-of-range" };
+        report(
+            cmd,
+            f.name,
+            &format!("{}{}", kind, oor),
+            vclass(f, v),
+            &text,
+            json!({"value": v, "value_hex": format!("{:#x}", v), "scenario": ["fresh creator", "all fields pre-set", "same field pre-set to the complement"][sc as usize],
+                   "earlier_sets": script.iter().map(|(g, x)| json!([cmd.fields[*g].name, x])).collect::<Vec<_>>(),
+                   "before": hex(&before), "after": hex(&after), "setter_result": format!("{:?}", res.as_ref().map_err(|t| &t.msg))}),
+            col,
+        );
+    }
+}
+
+fn report(cmd: &Cmd, field: &str, kind: &str, vcls: &str, text: &str, mut detail: Value, col: &mut Collector) {
+    let sig = format!("C19|{}|{}|{}|{}", MON[cmd.set], cmd.name, field, kind);
+    if let Some(o) = detail.as_object_mut() {
+        o.insert("command".into(), json!(cmd.name));
+        o.insert("set".into(), json!(SETS[cmd.set]));
+        o.insert("field".into(), json!(field));
+        o.insert("value_class".into(), json!(vcls));
+        o.insert("what".into(), json!(text));
+    }
+    col.violation(&sig, &format!("{}.{}: {}", cmd.name, field, text), detail);
+}
+
+/// Boundary values of a `bits`-wide argument.
+fn boundaries(bits: u32) -> Vec<u64> {
+    let top = full(bits);
+    let mut v = vec![0, 1, 2, top, top - 1, top >> 1, (top >> 1) + 1, 0x0102_0304_0506_0708 & top, 0x8040_2010_0804_0201 & top, 0xff, 0x100, 0xffff, 0x1_0000, 0xff_ffff, 0x100_0000, 999_999_999, 1_000_000_000, 1_000_000_001, NS_STEP - 1, NS_STEP, 255 * NS_STEP, 256 * NS_STEP - 1];
+    for k in 0..bits {
+        v.push(1u64 << k);
+        v.push((1u64 << k).wrapping_sub(1));
+    }
+    v.iter().map(|x| x & top).collect()
+}
+
+// ---- variable-length creators -------------------------------------------------------------
+
+fn vreport(mon: &str, cmd: &str, field: &str, kind: &str, text: &str, detail: Value, col: &mut Collector) {
+    let mut d = detail;
+    if let Some(o) = d.as_object_mut() {
+        o.insert("what".into(), json!(text));
+    }
+    col.violation(&format!("C19|{}|{}|{}|{}", mon, cmd, field, kind), &format!("{}.{}: {}", cmd, field, text), d);
+}
+
+/// EchoIncPayloadAnsCreator::payload with `len` octets; `over`: a longer/shorter payload was
+/// set first (later set overrides earlier).
+fn echo_case(len: usize, over: Option<usize>, rng: &mut Prng, col: &mut Collector) {
+    let data = rng.bytes(len);
+    let first = over.map(|n| rng.bytes(n));
+    let lclass = match len {
+        0 => "len=0",
+        1..=241 => "len=1..241",
+        _ => "len>241",
+    };
+    let r = trap(|| {
+        let mut c = EchoIncPayloadAnsCreator::new();
+        if let Some(f) = &first {
+            c.payload(f);
+        }
+        let before = c.build().to_vec();
+        c.payload(&data);
+        (before, c.build().to_vec(), c.len(), c.cid())
+    });
+    let mut verdict = "roundtrip";
+    match r {
+        Err(t) => {
+            if first.as_ref().map(|f| f.len() > 241).unwrap_or(false) && len <= 241 {
+                // the panic belongs to the earlier, oversized call; judged in its own case
+                col.event("prefill_panicked");
+                return;
+            }
+            verdict = "violation";
+            vreport("cert", "EchoIncPayloadAns", "payload", &format!("panic|{}", lclass), &format!("payload({} octets) panicked: {}", len, t.msg), json!({"len": len, "loc": t.loc, "earlier_payload_len": over}), col);
+        }
+        Ok((before, built, clen, cid)) => {
+            let expect: Vec<u8> = std::iter::once(0x08u8).chain(data.iter().map(|x| x.wrapping_add(1))).collect();
+            if (1..=241).contains(&len) {
+                let parsed = trap(|| {
+                    let mut it = parse_uplink_dut_commands(&built);
+                    match (it.next(), it.next()) {
+                        (Some(Ok(UplinkDUTCommand::EchoIncPayloadAns(p))), None) => Some(p.payload().to_vec()),
+                        _ => None,
+                    }
+                });
+                let what = if built != expect || clen != built.len() || cid != 0x08 {
+                    Some(("wire-image-differs", format!("built {} (len() = {}), TS009 echo of the request is {}", hex(&built), clen, hex(&expect))))
+                } else {
+                    match parsed {
+                        Err(t) => Some(("panic", format!("parsing the built command panicked: {}", t.msg))),
+                        Ok(None) => Some(("does-not-parse", "the built command does not parse back as one EchoIncPayloadAns".to_string())),
+                        Ok(Some(p)) if p[..] != expect[1..] => Some(("roundtrip-differs", format!("payload() = {}", hex(&p)))),
+                        Ok(Some(_)) => None,
+                    }
+                };
+                if let Some((k, t)) = what {
+                    verdict = "violation";
+                    let kind = if over.is_some() && k != "panic" { "later-set-does-not-override".to_string() } else { k.to_string() };
+                    vreport("cert", "EchoIncPayloadAns", "payload", &kind, &t, json!({"len": len, "data": hex(&data), "earlier_payload_len": over, "built": hex(&built)}), col);
+                }
+            } else if len == 0 {
+                // an empty echo is outside TS009 (and the parser's `new` refuses it): either no
+                // change, or a bare CID (which the stream parser reports as truncated)
+                if built == before || built == [0x08] {
+                    verdict = "refused";
+                } else {
+                    verdict = "violation";
+                    vreport("cert", "EchoIncPayloadAns", "payload", "out-of-range-wrong-value|len=0", "empty payload neither refused nor built as a bare CID", json!({"built": hex(&built), "before": hex(&before)}), col);
+                }
+            } else {
+                // longer than the creator can hold: refused (no change) or truncated to 241
+                let t241: Vec<u8> = expect[..242].to_vec();
+                if built == before {
+                    verdict = "refused";
+                } else if built == t241 {
+                    verdict = "truncated";
+                } else {
+                    verdict = "violation";
+                    vreport("cert", "EchoIncPayloadAns", "payload", "out-of-range-wrong-value|len>241", "oversized payload neither refused nor truncated", json!({"len": len, "built_len": built.len()}), col);
+                }
+            }
+        }
+    }
+    col.eval(&format!("dut-up|EchoIncPayloadAns|payload|{}{}|{}", lclass, if over.is_some() { "/override" } else { "" }, verdict));
+    col.event(match verdict {
+        "roundtrip" => "echo_roundtrip_ok",
+        "violation" => "field_violation",
+        _ => "out_of_range_refused",
+    });
+}
+
+/// A script of McGroupStatusAnsCreator::push calls judged against the TS005 model.
+fn push_case(nb: u8, ids: &[u8], rng: &mut Prng, col: &mut Collector) {
+    let mut c = McGroupStatusAnsCreator::new();
+    if trap(|| {
+        c.nb_total_groups(nb);
+    })
+    .is_err()
+    {
+        return;
+    }
+    let mut model: Vec<(u8, u32)> = vec![];
+    for (k, id) in ids.iter().enumerate() {
+        let addr = rng.next_u32();
+        let before = match trap(|| c.build().to_vec()) {
+            Ok(b) => b,
+            Err(_) => return,
+        };
+        let res = trap(|| c.push(*id, McAddr::from_value(addr)).map(|_| ()));
+        let dup = model.iter().any(|m| m.0 == *id);
+        let cls = if model.len() >= 4 {
+            "fifth-push"
+        } else if *id >= 8 {
+            "group_id>=8"
+        } else if *id >= 4 {
+            "group_id=4..7"
+        } else if dup {
+            "duplicate-group_id"
+        } else {
+            "admissible"
+        };
+        let admissible = cls == "admissible";
+        let detail = |extra: Value| json!({"nb_total_groups": nb, "group_ids_pushed_before": model.iter().map(|m| m.0).collect::<Vec<_>>(), "group_id": id, "mc_addr": addr, "push_number": k + 1, "before": hex(&before), "more": extra});
+        let mut verdict = "roundtrip";
+        let after = trap(|| (c.build().to_vec(), c.len()));
+        match (&res, &after) {
+            (Err(t), _) => {
+                verdict = "violation";
+                vreport("mcast", "McGroupStatusAns", "push", &format!("panic|{}", cls), &format!("push panicked: {}", t.msg), detail(json!({"loc": t.loc})), col);
+            }
+            (_, Err(t)) => {
+                verdict = "violation";
+                vreport("mcast", "McGroupStatusAns", "push", &format!("build-panicked|{}", cls), &format!("build() panicked after push: {}", t.msg), detail(json!({"loc": t.loc})), col);
+            }
+            (Ok(Err(_)), Ok((a, _))) => {
+                if *a != before {
+                    verdict = "violation";
+                    vreport("mcast", "McGroupStatusAns", "push", &format!("refused-but-changed|{}", cls), "push returned Err but the command changed", detail(json!({"after": hex(a)})), col);
+                } else if admissible {
+                    verdict = "violation";
+                    vreport("mcast", "McGroupStatusAns", "push", "refused-admissible", "admissible push refused", detail(json!({})), col);
+                } else {
+                    verdict = "refused";
+                }
+            }
+            (Ok(Ok(())), Ok((a, clen))) => {
+                // accepted: the command must read back as the model with this entry added
+                // (admissible), or with the group id truncated to its 2 bits (out of range)
+                let mut cands: Vec<Vec<(u8, u32)>> = vec![];
+                if admissible {
+                    let mut m = model.clone();
+                    m.push((*id, addr));
+                    cands.push(m);
+                } else if model.len() < 4 && !model.iter().any(|m| m.0 == *id & 3) {
+                    let mut m = model.clone();
+                    m.push((*id & 3, addr));
+                    cands.push(m);
+                }
+                let got = trap(|| {
+                    let mut it = parse_uplink_multicast_commands(a);
+                    match (it.next(), it.next()) {
+                        (Some(Ok(UplinkRemoteSetup::McGroupStatusAns(p))), None) => {
+                            Some((p.nb_total_groups(), p.ans_group_mask(), p.item_iterator().take(8).map(|i| (i.mc_group_id(), i.mc_addr().value())).collect::<Vec<_>>(), 1 + p.len()))
+                        }
+                        _ => None,
+                    }
+                });
+                let okay = match &got {
+                    Ok(Some((gnb, gmask, items, plen))) => {
+                        *plen == a.len()
+                            && *clen == a.len()
+                            && *gnb == nb & 7
+                            && cands.iter().any(|m| {
+                                let mask = m.iter().fold(0u8, |x, e| x | 1 << e.0);
+                                let mut sorted = m.clone();
+                                sorted.sort();
+                                *gmask == mask && (items == m || *items == sorted)
+                            })
+                    }
+                    _ => false,
+                };
+                if okay {
+                    verdict = if admissible { "roundtrip" } else { "truncated" };
+                    if let Some(m) = cands.into_iter().next() {
+                        model = m;
+                    }
+                } else {
+                    verdict = "violation";
+                    let kind = if admissible { "roundtrip-differs".to_string() } else { format!("out-of-range-wrong-value|{}", cls) };
+                    vreport(
+                        "mcast",
+                        "McGroupStatusAns",
+                        "push",
+                        &kind,
+                        if admissible { "the built command does not read back as the groups pushed" } else { "inadmissible push neither refused nor truncated to the 2-bit group id; the command no longer reads back as a McGroupStatusAns with the groups pushed and NbTotalGroups kept" },
+                        detail(json!({"after": hex(a), "creator_len": clen, "parsed": format!("{:?}", got.as_ref().map_err(|t| &t.msg))})),
+                        col,
+                    );
+                }
+            }
+        }
+        col.eval(&format!("mc-up|McGroupStatusAns|push|{}|{}", cls, verdict));
+        col.event(match verdict {
+            "roundtrip" => "push_roundtrip_ok",
+            "violation" => "field_violation",
+            "refused" => "out_of_range_refused",
+            _ => "out_of_range_truncated",
+        });
+        if verdict == "violation" {
+            // the creator's state is no longer modelled
+            return;
+        }
+    }
+}
+
+/// McGroupStatusReqCreator: req_group_mask(mask) then req_group(g) for every g ("set just the bit").
+fn req_group_case(mask: u8, col: &mut Collector) {
+    for g in 0..=255u8 {
+        let r = trap(|| {
+            let mut c = McGroupStatusReqCreator::new();
+            c.req_group_mask(mask);
+            let before = c.build().to_vec();
+            c.req_group(g);
+            (before, c.build().to_vec())
+        });
+        let cls = if g <= 3 { "admissible" } else { "out-of-range" };
+        let mut verdict = "roundtrip";
+        match r {
+            Err(t) => {
+                verdict = "violation";
+                vreport("mcast", "McGroupStatusReq", "req_group", &format!("panic|{}", cls), &format!("req_group({}) panicked: {}", g, t.msg), json!({"mask": mask, "group": g}), col);
+            }
+            Ok((before, after)) => {
+                let got = snap_one(5, &after).ok().and_then(|(n, s)| if n == "McGroupStatusReq" { get(&s, "req_group_mask") } else { None });
+                let base = (mask & 15) as u128;
+                let set = base | 1 << (g & 3);
+                let rfu_same = after.len() == 2 && before.len() == 2 && (after[1] ^ before[1]) & 0xf0 == 0;
+                let good = if g <= 3 { got == Some(set) } else { got == Some(set) || got == Some(base) };
+                if !good || !rfu_same {
+                    verdict = "violation";
+                    let kind = if g <= 3 { "roundtrip-differs" } else { "out-of-range-wrong-value" };
+                    vreport("mcast", "McGroupStatusReq", "req_group", kind, "req_group does not add exactly the requested group bit", json!({"mask": mask, "group": g, "before": hex(&before), "after": hex(&after)}), col);
+                } else if g > 3 {
+                    verdict = if got == Some(base) && base != set { "refused" } else { "truncated" };
+                }
+            }
+        }
+        col.eval(&format!("mc-down|McGroupStatusReq|req_group|{}|{}", cls, verdict));
+        col.event(match verdict {
+            "roundtrip" => "field_roundtrip_ok",
+            "violation" => "field_violation",
+            "refused" => "out_of_range_refused",
+            _ => "out_of_range_truncated",
+        });
+    }
 }
